@@ -31,9 +31,9 @@ fn slice(tier: Tier) -> Vec<(String, PProblem)> {
             continue;
         }
         let per = match (name, tier) {
-            ("core", Tier::Quick) => 6,
+            ("core", Tier::Quick) => 12,
             ("core", _) => 40,
-            (_, Tier::Quick) => 2,
+            (_, Tier::Quick) => 4,
             _ => 8,
         };
         let candidates: Vec<PProblem> = problems.into_iter().filter(|p| p.jobs.len() >= 3).collect();
